@@ -136,4 +136,20 @@ def apply() -> None:
         return _stock_int(val, base) if base is not bl._MISSING else _stock_int(val)
 
     core._PATCH_REGISTRATIONS[int] = _int
+
+    # 5. str.join over vkit.symstr.SymStr items (C19): concatenation of the symbolic strings
+    from .symstr import SymStr
+    from .symstr import join as _sym_join
+
+    _stock_join = core._PATCH_REGISTRATIONS.get(str.join, bl._str_join)
+
+    def _str_join(self, itr):  # type: ignore[no-untyped-def]
+        with NoTracing():
+            items = list(itr) if isinstance(itr, (list, tuple)) else None
+            symbolic = items is not None and any(isinstance(x, SymStr) for x in items)
+        if symbolic:
+            return _sym_join(self, items)
+        return _stock_join(self, itr)
+
+    core._PATCH_REGISTRATIONS[str.join] = _str_join
     _done = True
